@@ -168,6 +168,7 @@ type Path struct {
 	Depth   int
 	Facts   map[string]Term // atoms assumed on this path (folding)
 	Ghosts  map[string]Value // call-site ghosts: results of designated calls
+	GhostHeap map[string]map[string]Term // heap right after the designated call returned (for atreturn(g, e))
 	CutSeen map[string]bool
 }
 
@@ -185,6 +186,12 @@ func (p *Path) clone() *Path {
 		q.Ghosts = make(map[string]Value, len(p.Ghosts))
 		for k, v := range p.Ghosts {
 			q.Ghosts[k] = v
+		}
+	}
+	if p.GhostHeap != nil {
+		q.GhostHeap = make(map[string]map[string]Term, len(p.GhostHeap))
+		for k, v := range p.GhostHeap {
+			q.GhostHeap[k] = v // snapshots are immutable
 		}
 	}
 	for k, v := range p.Vars {
